@@ -461,6 +461,23 @@ pub fn directed(names: &[String]) -> Vec<Trace> {
         true,
         vec![set("Language", "sv"), set("Language", "Auto"), set("LanguageAuto", "en"), set("LanguageAuto", "es-mx-x"), set("Language", "fi"), set("LanguageAuto", "en"), set("Language", "Auto"), set("LanguageAuto", "Auto"), set("Language", "e"), set("Language", "en-gb")],
     ));
+    // scope: under every braille code and speech engine, switching the speech-only preferences leaves braille as it was
+    // (and the braille-only ones leave speech and overview), over expressions with chemistry, tables, capitals, numbers
+    for (ci, code) in pools::BRAILLE_CODES.iter().enumerate() {
+        for tts in ["None", "SSML", "SAPI5"] {
+            let mut steps = vec![set("BrailleCode", code), set("TTS", tts)];
+            for (k, e) in [59usize, 60, 2, 10, 50, 55, 7, 18].iter().enumerate() {
+                if (k + ci) % 2 == 1 && tts != "SAPI5" {
+                    continue; // half of the expressions per (code, engine), all of them under SAPI5
+                }
+                steps.push(Step::Call(Op::SetMathml(ExprRef::Pool(*e))));
+                for (n, val) in [("Bookmark", "true"), ("Verbosity", "Verbose"), ("SpeechStyle", "SimpleSpeak"), ("CapitalLetters_UseWord", "false"), ("PauseFactor", "300"), ("Bookmark", "false"), ("Verbosity", "Terse"), ("SpeechStyle", "ClearSpeak"), ("CapitalLetters_UseWord", "true"), ("PauseFactor", "100"), ("BrailleNavHighlight", "All"), ("BrailleNavHighlight", "EndPoints")] {
+                    steps.push(set(n, val));
+                }
+            }
+            v.push(mk(format!("scope-{}-{}", code, tts), true, steps));
+        }
+    }
     // a rejected file-selecting preference (no such braille code has no fallback problem; a missing style falls back)
     v.push(mk("rejected-then-accepted".into(), true, vec![set("Language", "xx-yy"), set("BrailleCode", "NoSuchCode"), set("SpeechStyle", "NoSuchStyle"), set("Language", "toolong"), set("Pitch", "high"), set("Pitch", "2"), set("Bookmark", "yes"), set("Bookmark", "TRUE")]));
     v
